@@ -1385,138 +1385,6 @@ Proof.
 Qed.
 
 (* ================================================================== *)
-(* script based simulator: num_already_before                            *)
-(* ================================================================== *)
-(* _last_metric_seen_index counts exactly the results that arrived and were handed out or dropped *)
-Definition cnt_ok (t : tr) : Prop := seen t + length (nrf t) = length (log t).
-Definition cnt_all (ts : list tr) : Prop := forall j t, nth_error ts j = Some t -> cnt_ok t.
-
-Lemma cnt_upd i f ts : cnt_all ts -> (forall t, cnt_ok t -> cnt_ok (f t)) -> cnt_all (upd i f ts).
-Proof.
-  intros H Hf j t' Hj. apply nth_upd_inv in Hj. destruct Hj as [[N Hj]|[Eij [t [Hj Et]]]]; [eapply H; eauto|subst].
-  apply Hf. eapply H; eauto.
-Qed.
-
-Lemma cnt_write new rest p t : cnt_ok t -> cnt_ok (t_write Sim new rest p t).
-Proof. unfold cnt_ok, t_write. destruct t; simpl. rewrite !app_length. lia. Qed.
-Lemma cnt_emit k t : cnt_ok t -> cnt_ok (t_emit Sim k t).
-Proof. unfold t_emit. destruct (proc t); auto. apply cnt_write. Qed.
-Lemma cnt_finish t : cnt_ok t -> cnt_ok (t_finish Sim t).
-Proof. unfold t_finish. destruct (proc t); auto. apply cnt_write. Qed.
-Lemma cnt_fail k t : cnt_ok t -> cnt_ok (t_fail Sim k t).
-Proof. unfold t_fail. destruct (proc t); auto. apply cnt_write. Qed.
-Lemma cnt_kill late t : cnt_ok t -> cnt_ok (t_kill Sim late t).
-Proof. unfold t_kill. destruct (proc t); auto. apply cnt_write. Qed.
-Lemma cnt_take t : cnt_ok t -> cnt_ok (take_nrf t).
-Proof. unfold cnt_ok, take_nrf. destruct t; simpl. lia. Qed.
-Lemma cnt_deliver r t : cnt_ok t -> cnt_ok (t_deliver r t).
-Proof. unfold cnt_ok, t_deliver. destruct t; simpl. auto. Qed.
-Lemma cnt_set_fin f t : cnt_ok t -> cnt_ok (set_fin f t).
-Proof. unfold cnt_ok, set_fin. destruct t; simpl. auto. Qed.
-Lemma cnt_set_mark m t : cnt_ok t -> cnt_ok (set_mark m t).
-Proof. unfold cnt_ok, set_mark. destruct t; simpl. auto. Qed.
-Lemma cnt_set_cstat c t : cnt_ok t -> cnt_ok (set_cstat c t).
-Proof. unfold cnt_ok, set_cstat. destruct t; simpl. auto. Qed.
-Lemma cnt_pause late t : cnt_ok t -> cnt_ok (t_pause Sim late t).
-Proof. intros H. unfold t_pause, drop_window. apply cnt_take, cnt_kill, cnt_set_mark, cnt_set_cstat, H. Qed.
-Lemma cnt_stop late t : cnt_ok t -> cnt_ok (t_stop Sim late t).
-Proof. intros H. unfold t_stop, drop_window. apply cnt_take, cnt_kill, cnt_set_mark, H. Qed.
-Lemma cnt_resume reps t : cnt_ok t -> cnt_ok (t_resume Sim reps t).
-Proof. unfold cnt_ok, t_resume. destruct t; simpl. auto. Qed.
-Lemma cnt_observe t : cnt_ok t -> cnt_ok (t_observe t).
-Proof. intros H. unfold t_observe. destruct (fin t); auto. destruct (status_of t); auto; apply cnt_set_fin; auto. Qed.
-
-Lemma fetch_sim_polled_cnt ids : forall ts ts' b, cnt_all ts -> fetch_sim_polled ids ts = (ts', b) -> cnt_all ts'.
-Proof.
-  induction ids as [|i r IH]; intros ts ts' b H F; simpl in F.
-  - inversion F; subst; auto.
-  - destruct (nth_error ts i); [|eapply IH; eauto].
-    destruct (fetch_sim_polled r _) as [ts2 b2] eqn:F2. inversion F; subst.
-    eapply IH; [|exact F2]. apply cnt_upd; auto. apply cnt_take.
-Qed.
-
-Lemma update_loop_cnt batch : forall decs done ts out ts' out' done',
-  cnt_all ts -> update_loop Sim batch decs done ts out = (ts', out', done') -> cnt_all ts'.
-Proof.
-  induction batch as [|[i r] rest IH]; intros decs done ts out ts' out' done' H F; simpl in F.
-  - inversion F; subst; auto.
-  - destruct (mem_nat i done); [eapply IH; eauto|].
-    destruct (next_dec decs) as [[d late] decs']. destruct d.
-    + eapply IH; [|exact F]. apply cnt_upd; auto; try apply cnt_deliver.
-    + eapply IH; [|exact F]. apply cnt_upd; [apply cnt_upd; auto; try apply cnt_deliver|].
-      intros t Ht. apply cnt_set_fin, cnt_pause, Ht.
-    + eapply IH; [|exact F]. destruct (status_eqb (status_at ts i) Completed).
-      * apply cnt_upd; [apply cnt_upd; auto; try apply cnt_deliver|]. intros t Ht. apply cnt_set_fin, Ht.
-      * apply cnt_upd; [apply cnt_upd; auto; try apply cnt_deliver|]. intros t Ht. apply cnt_set_fin, cnt_stop, Ht.
-Qed.
-
-Lemma observe_cnt ids : forall ts, cnt_all ts -> cnt_all (observe ids ts).
-Proof. induction ids as [|i r IH]; intros ts H; simpl; auto. apply IH. apply cnt_upd; auto. apply cnt_observe. Qed.
-
-Lemma fetch_sim_cnt ids ts ts' b : cnt_all ts -> fetch_sim ids ts = (ts', b) -> cnt_all ts'.
-Proof.
-  intros H F. unfold fetch_sim in F. destruct (fetch_sim_polled ids ts) as [ts1 b1] eqn:F1. inversion F; subst.
-  intros j t Hj. rewrite nth_error_map in Hj. destruct (nth_error ts1 j) as [t1|] eqn:E; simpl in Hj; [|discriminate].
-  inversion Hj; subst. apply cnt_take. eapply fetch_sim_polled_cnt; eauto.
-Qed.
-
-Lemma step_cnt st e st' x : cnt_all (trials st) -> step Sim st e = (st', x) -> cnt_all (trials st').
-Proof.
-  intros H F. destruct e as [w|reps|i reps|ids decs|ids|i late|i late]; simpl in F.
-  - inversion F; subst; simpl. destruct w; simpl; apply cnt_upd; auto;
-      [apply cnt_emit|apply cnt_finish|apply cnt_fail].
-  - inversion F; subst; simpl. intros j t Hj.
-    destruct (Nat.lt_ge_cases j (length (trials st))) as [L|L].
-    + rewrite nth_error_app1 in Hj by auto. eapply H; eauto.
-    + rewrite nth_error_app2 in Hj by auto.
-      destruct (j - length (trials st)) as [|n]; simpl in Hj; [|destruct n; discriminate].
-      inversion Hj; subst. reflexivity.
-  - destruct (nth_error (trials st) i); [|inversion F; subst; auto].
-    destruct (status_eqb _ Paused); inversion F; subst; auto. simpl. apply cnt_upd; auto; try apply cnt_resume.
-  - destruct (ids_ok (trials st) ids); [|inversion F; subst; auto].
-    destruct (fetch_sim ids (trials st)) as [ts1 b] eqn:Ef.
-    destruct (update_loop Sim b decs [] ts1 (out st)) as [[ts2 out2] done2] eqn:Eu.
-    inversion F; subst; simpl. apply observe_cnt. eapply update_loop_cnt; [|exact Eu]. eapply fetch_sim_cnt; eauto.
-  - destruct (ids_ok (trials st) ids); [|inversion F; subst; auto].
-    destruct (fetch_sim ids (trials st)) as [ts1 b] eqn:Ef. inversion F; subst; simpl. eapply fetch_sim_cnt; eauto.
-  - destruct (Nat.ltb i (length (trials st))); inversion F; subst; auto. simpl. apply cnt_upd; auto; try apply cnt_pause.
-  - destruct (Nat.ltb i (length (trials st))); inversion F; subst; auto. simpl. apply cnt_upd; auto; try apply cnt_stop.
-Qed.
-
-Lemma sstep_cnt st s st' x : cnt_all (trials st) -> sstep st s = (st', x) -> cnt_all (trials st').
-Proof.
-  intros H F. destruct s as [e|i all]; simpl in F; [eapply step_cnt; eauto|].
-  destruct (nth_error (trials st) i) as [t|]; [|inversion F; subst; exact H].
-  destruct (status_eqb (status_of t) Paused); inversion F; subst; [|exact H].
-  simpl. apply cnt_upd; auto; try apply cnt_resume.
-Qed.
-
-Lemma srun_cnt evs : forall st st' x, cnt_all (trials st) -> srun st evs = (st', x) -> cnt_all (trials st').
-Proof.
-  induction evs as [|e r IH]; intros st st' x H F; simpl in F.
-  - inversion F; subst; auto.
-  - destruct (sstep st e) as [st1 [y|]] eqn:Es.
-    + inversion F; subst. eapply sstep_cnt; eauto.
-    + eapply IH; [|exact F]. eapply sstep_cnt; eauto.
-Qed.
-
-(* after ANY events (raw operations and polls that do not cover a reporting trial included): the
-   job of a resumed trial gets exactly the reports of std.out beyond the number of results that
-   arrived and were handed out or dropped so far *)
-Theorem sim_resume_slice evs st i all t :
-  srun init evs = (st, None) -> nth_error (trials st) i = Some t -> status_of t = Paused ->
-  exists st' t', sstep st (ResumeScript i all) = (st', None) /\ nth_error (trials st') i = Some t' /\
-                 cur t' = skipn (length (log t) - length (nrf t)) all /\ todo t' = cur t' /\ dcur t' = [].
-Proof.
-  intros F Hi Hp.
-  assert (Hc : cnt_ok t).
-  { eapply (srun_cnt evs init st None); eauto. intros [|j] t0 Hj; simpl in Hj; discriminate. }
-  unfold sstep. rewrite Hi. unfold step. rewrite Hi. unfold resume_status. rewrite Hp. simpl.
-  eexists. eexists. split; [reflexivity|]. simpl. split; [apply nth_upd_same; exact Hi|].
-  unfold cnt_ok in Hc. simpl. replace (length (log t) - length (nrf t)) with (seen t) by lia. auto.
-Qed.
-
-(* ================================================================== *)
 (* the two reads of a poll: status first, text second                    *)
 (* ================================================================== *)
 Definition worker_ok (t : tr) : Prop := cur t = em t ++ todo t /\ (proc t = ExitOk -> todo t = []).
